@@ -942,6 +942,28 @@ def D4_windows(repo, clause):
         cover = set(axes) == {0, 1, 2} and all(v == {"lower", "upper"} for v in axes.values())
         obs.append(Ob("D4", clause, win, tests[0], cover, "%s window bounds all three axes on both sides: %s" % (which, {k: sorted(v) for k, v in axes.items()}),
                       construct="if <window test>", slot="%s:coverage" % which))
+        if is_tri and cover:
+            # a ONE-SIDED window ([-w - r, r] or [-r, w + r] measured from the face through the origin along a plane normal) is right only if the normal is known to point
+            # inwards (resp. outwards).  Cross products of the lattice vectors point inwards for a right-handed cell and outwards for a left-handed one, whatever order they
+            # are taken in: the coordinate must carry an orientation factor computed from the cell (sign of the centre's distance, sign of the determinant)
+            def _has_orientation(x_):
+                xe = expand(win, x_)
+                for y in ast.walk(xe):
+                    if isinstance(y, ast.Call) and call_name(y) in ("sign", "copysign"):
+                        return True
+                    if isinstance(y, ast.BinOp) and isinstance(y.op, ast.Div) and isinstance(y.right, ast.Call) and call_name(y.right) in ("abs", "absolute", "fabs") and y.right.args:
+                        num = y.left.operand if isinstance(y.left, ast.UnaryOp) else y.left
+                        if nf(num) == nf(y.right.args[0]):
+                            return True
+                return False
+            coords = [x for l, op, r in pairs for b in [_bound(l, op, r, is_coord)] if b is not None for x in [b[1]]]
+            plain = [x for x in coords if not _has_orientation(x)]
+            if coords and plain and any(isinstance(c_, ast.Call) and call_name(c_) == "cross" for x in plain for c_ in ast.walk(expand(win, x))):
+                obs.append(Ob("D4", clause, win, tests[0], False,
+                              "triclinic window: the signed plane distance `%s` is tested against a ONE-SIDED window, but the normal is a bare cross product of lattice vectors - it points into the "
+                              "cell only for a right-handed set of cell vectors (det(cell) > 0); for a left-handed cell the window selects the mirror region, so no image atoms are found "
+                              "(an orientation factor computed from the cell - sign of the centre's distance - is missing)" % ast.unparse(plain[0])[:60],
+                              slot="triclinic:orientation-factor", positive="robust"))
     # --- cube filter in get_nearby_atoms
     gp = gn.params
     Rg = gp[2] if len(gp) >= 3 else None
